@@ -213,11 +213,11 @@ theorem resolve_terminates (cfg : Config) (clip : Bool) (maxChain : Nat) (req : 
       exact (terminates_within_lifetime (mkEnv cfg codeBackoff clip maxChain req now qnames) cache script
         backoff_wellformed.1 backoff_wellformed.2.1 backoff_wellformed.2.2).1
 
-/-- "terminates within its lifetime", part 2 (the clock): when the loop ends, the clock stands at most one back-off
-(≤ the cap, 2 s) after `start + lifetime` in the code as shipped, and not after `start + lifetime` at all when the
-back-off sleep is clipped to the remaining lifetime (the intended behaviour; see `lifetime_overrun_as_shipped`).
-Nameservers are assumed to honour the timeout they are given (built into `doQuery`). -/
-theorem ends_within_lifetime_partial (env : Env) (cache : Cache) (script : List ScriptStep)
+/-- the clock at the end of the loop, for both variants of the model's back-off sleep: clipped to the remaining
+lifetime (`clipSleep = true`, the code since the repair 95c41ae) the loop ends inside the lifetime; unclipped (the code as
+first shipped, retained as a model variant) it ends at most one back-off (≤ the cap, 2 s) later.  Nameservers honour
+the timeout they are given (built into `doQuery`). -/
+theorem ends_within_lifetime_variants (env : Env) (cache : Cache) (script : List ScriptStep)
     (hcap : env.bo.init ≤ env.bo.cap) :
     (loopResult env cache script).2.1 = .outOfFuel ∨
     (loopResult env cache script).2.2.now ≤ env.start + env.lifetime + (if env.clipSleep then 0 else env.bo.cap) := by
@@ -230,19 +230,33 @@ theorem ends_within_lifetime_partial (env : Env) (cache : Cache) (script : List 
     ⟨by simp [initSt], by simp [initSt], by simp [initSt]⟩
   exact h
 
-/-- with the back-off sleep clipped to the remaining lifetime (the proposed repair) the resolution ends inside its
-lifetime, for every script. -/
-theorem ends_within_lifetime_intended (env : Env) (cache : Cache) (script : List ScriptStep)
-    (hcap : env.bo.init ≤ env.bo.cap) (hclip : env.clipSleep = true) :
-    (loopResult env cache script).2.1 = .outOfFuel ∨
-    (loopResult env cache script).2.2.now ≤ env.start + env.lifetime := by
-  have h := ends_within_lifetime_partial env cache script hcap
-  simpa [hclip] using h
+/-- "a stub resolution terminates within its lifetime": for every configuration, request, cache and script of
+nameserver outcomes, `Resolver.resolve` as the code now is (schedule, clipping and `MAX_CHAIN` regenerated from the
+working tree: `ConstsC16.clipSleep = true` is an obligation about the code) returns or raises no later than
+`lifetime` after it was called — unconditionally. -/
+theorem ends_within_lifetime (cfg : Config) (req : Request) (now : Nat) (cache : Cache) (script : List ScriptStep) :
+    (codeResolve cfg req now cache script).2.2.now ≤ now + req.lifetime.getD cfg.lifetime := by
+  unfold codeResolve resolve
+  split
+  · simp [initSt]
+  · split
+    · simp [initSt]
+    · rename_i qnames _
+      have ht := (terminates_within_lifetime
+        (mkEnv cfg codeBackoff ConstsC16.clipSleep ConstsC16.maxChain req now qnames) cache script
+        backoff_wellformed.1 backoff_wellformed.2.1 backoff_wellformed.2.2).1
+      have h := ends_within_lifetime_variants
+        (mkEnv cfg codeBackoff ConstsC16.clipSleep ConstsC16.maxChain req now qnames) cache script
+        backoff_wellformed.2.1
+      have hclip : ConstsC16.clipSleep = true := by decide
+      rcases h with h | h
+      · exact absurd h ht
+      · simpa [loopResult, mkEnv, hclip] using h
 
-/-- The full statement "the resolution ends no later than `start + lifetime`" is FALSE for the code as shipped: two
-silent nameservers, timeout 0.25 s, lifetime 0.5 s — `LifetimeTimeout` is raised at 0.6 s, after a 0.1 s back-off
-sleep that began exactly when the lifetime ran out (KNOWN_FINDINGS: C16/resolve/lifetime-overrun/backoff-sleep). -/
-theorem lifetime_overrun_as_shipped :
+/-- The retained *unclipped* variant of the model (the code before 95c41ae) does overrun: two silent nameservers,
+timeout 0.25 s, lifetime 0.5 s — `LifetimeTimeout` at 0.6 s, after a 0.1 s back-off sleep that began exactly when the
+lifetime ran out; the clipped variant ends at 0.5 s on the same input.  (Recorded as fixed in KNOWN_FINDINGS.) -/
+theorem lifetime_overrun_unclipped_variant :
     let cfg : Config := { servers := [⟨0, false⟩, ⟨1, false⟩], search := [], domain := none, ndots := none,
                           useSearchByDefault := false, timeout := 250, lifetime := 500, retryServfail := false,
                           cacheOn := false }
